@@ -20,7 +20,7 @@ def main():
     if "--tests" in sys.argv:
         tests = sys.argv[sys.argv.index("--tests") + 1]
     wt = "/var/tmp/seedconfirm-%d" % os.getpid()
-    env_prefix = "CARGO_NET_OFFLINE=true CARGO_TARGET_DIR=/var/tmp/rebase-target "
+    env_prefix = "CARGO_NET_OFFLINE=true CARGO_TARGET_DIR=/var/tmp/seedconfirm-target "
     res = {}
     with open(os.path.join(seed, "confirm.log"), "w") as log:
         subprocess.check_call(["git", "-C", "/repo", "worktree", "add", "-q", "--detach", wt, "HEAD"])
